@@ -180,10 +180,6 @@ func classify(c *Case, what string) string {
 	if c.Doc != nil {
 		text = c.Doc.text()
 	}
-	what = strings.TrimPrefix(what, "corpus case ")
-	if i := strings.Index(what, ".json: "); i > 0 && strings.HasPrefix(what, "/") {
-		what = what[i+7:]
-	}
 	isMutation := strings.HasPrefix(strings.TrimSpace(text), "mutation")
 	switch {
 	case strings.HasPrefix(what, "response differs") && (isMutation || strings.Contains(text, "mutationType")):
@@ -444,7 +440,20 @@ type specStats struct {
 
 // reportOracle shrinks and records a failing case. Only the first few cases of a failure class are
 // shrunk (shrinking re-runs the differential hundreds of times); the rest are counted.
-func (h *harness) reportOracle(c *Case, what string) {
+func (h *harness) reportOracle(c *Case, what string) (key string) {
+	if key = classify(c, what); key != "" {
+		// an open known finding: reported (the check prints KNOWN-FINDING), counted, not shrunk further
+		h.run.Count("known-finding:" + key)
+		if h.perClass[key] < 1 {
+			h.perClass[key]++
+			c2, w2 := shrink(c, what)
+			if classify(c2, w2) == key {
+				c, what = c2, w2
+			}
+			h.run.Violate("property", what, key, false, c)
+		}
+		return key
+	}
 	class := failureClass(what) + "/" + c.Query.Kind
 	if c.Query.Kind == "probe" {
 		class += "/" + strings.SplitN(c.Query.Label, ":", 2)[0]
@@ -452,11 +461,11 @@ func (h *harness) reportOracle(c *Case, what string) {
 	h.perClass[class]++
 	h.run.Count("failure:" + class)
 	if h.perClass[class] > 2 {
-		return
+		return ""
 	}
 	c, what = shrink(c, what)
-	key := classify(c, what)
-	h.run.Violate("property", what, key, false, c)
+	h.run.Violate("property", what, classify(c, what), false, c)
+	return ""
 }
 
 // checkSpec runs everything for one schema. nDocs generated documents per feature set.
@@ -548,16 +557,21 @@ func (h *harness) checkSpec(spec *Spec, r *hx.Rand, nDocs int, sample bool) {
 					h.viewMismatch(spec, F, "view(S,F): model(-) vs real(+): "+d, env, probes)
 				}
 				// the erased schema under all features: the gf lines of erased-away types do not exist there
-				rv2, err := realView(env.erased, env.erasedW, env.all, origX)
-				d = ""
-				if err != nil {
-					d = err.Error()
+				if rootHidden(spec, F) {
+					// RootsUngated fails and F hides a root type: outside the theorems' domain (F-13f)
+					run.Count("F:hides-a-root-type")
 				} else {
-					d = diffLines(filterGF(mv, env.erasedSp), rv2)
-				}
-				run.Oblige(obViewErase, "correspondence", len(mv), d == "", d)
-				if d != "" {
-					h.viewMismatch(spec, F, "view(S,F) vs real (erase(S,F), all features): model(-) vs real(+): "+d, env, probes)
+					rv2, err := realView(env.erased, env.erasedW, env.all, origX)
+					d = ""
+					if err != nil {
+						d = err.Error()
+					} else {
+						d = diffLines(filterGF(mv, env.erasedSp), rv2)
+					}
+					run.Oblige(obViewErase, "correspondence", len(mv), d == "", d)
+					if d != "" {
+						h.viewMismatch(spec, F, "view(S,F) vs real (erase(S,F), all features): model(-) vs real(+): "+d, env, probes)
+					}
 				}
 			}
 		}
@@ -608,10 +622,12 @@ func (h *harness) checkSpec(spec *Spec, r *hx.Rand, nDocs int, sample bool) {
 			}
 			key := hx.Hash(canonSpec(origX) + "|" + strings.Join(F, ",") + "|" + q.Text)
 			run.Case(key, gatedSomething)
-			run.Oblige(obOracle, "oracle", 1, what == "", what)
 			if what != "" {
-				h.reportOracle(&Case{Spec: spec.clone(), F: F, Query: *q, Respect: respect, Seed: seed, Doc: q.doc}, what)
+				if h.reportOracle(&Case{Spec: spec.clone(), F: F, Query: *q, Respect: respect, Seed: seed, Doc: q.doc}, what) != "" {
+					what = "" // an open known finding, reported as such
+				}
 			}
+			run.Oblige(obOracle, "oracle", 1, what == "", what)
 		}
 		if sample && len(F) == 0 {
 			for _, q := range qs {
@@ -623,6 +639,14 @@ func (h *harness) checkSpec(spec *Spec, r *hx.Rand, nDocs int, sample bool) {
 		}
 	}
 	_ = nontrivial
+}
+
+func rootHidden(spec *Spec, F []string) bool {
+	if spec.Mutation == "" {
+		return false
+	}
+	m := spec.find(spec.Mutation)
+	return m != nil && !subset(m.Req, fset(F))
 }
 
 // filterGF drops the GetField lines of types that do not exist in the erased schema (there is no
@@ -848,8 +872,23 @@ func main() {
 		if err := hx.LoadReplayCase(f, &c); err != nil || c.Spec == nil {
 			continue
 		}
-		run.Count("corpus")
 		what := h.replayCase(&c, false)
+		if strings.Contains(f, "/findings/") {
+			// the committed replay of an open finding: expected to fail, with its own key
+			run.Count("finding-replay")
+			key := ""
+			if what != "" {
+				key = classify(&c, what)
+			}
+			run.Oblige("open findings reproduce with their own classifier", "oracle", 1, what == "" || key != "", f+": "+what)
+			if what == "" {
+				run.Note("finding replay %s no longer fails", f)
+			} else {
+				run.Violate("property", "finding replay "+f+": "+what, key, false, &c)
+			}
+			continue
+		}
+		run.Count("corpus")
 		ok := what == ""
 		run.Oblige("corpus: past failures stay fixed", "oracle", 1, ok, f+": "+what)
 		if !ok && c.Query.Text != "" {
